@@ -44,6 +44,7 @@ type Report struct {
 	Obls     []Obligation
 	Extra    map[string]any
 	start    time.Time
+	vacuityDone bool
 }
 
 func NewReport(prop, tier string, seed int64) *Report {
@@ -114,8 +115,12 @@ func loadKnown(path string) ([]KnownFinding, error) {
 }
 
 // Finish applies min-instance assertions and known findings, prints the verdict, writes evidence; returns exit code.
-func (r *Report) Finish(verifDir string, ctx *Ctx, only string) int {
-	// vacuity: a rule that matched fewer instances than confirmed by reading fails.
+// vacuity: a rule that matched fewer instances than confirmed by reading fails.
+func (r *Report) vacuity() {
+	if r.vacuityDone {
+		return
+	}
+	r.vacuityDone = true
 	for _, ri := range r.Rules {
 		if ri.Found < ri.MinInst {
 			r.Obls = append(r.Obls, Obligation{Rule: ri.ID, Construct: "rule-instances", Pos: "-", OK: false,
@@ -123,6 +128,32 @@ func (r *Report) Finish(verifDir string, ctx *Ctx, only string) int {
 			ri.Failed++
 		}
 	}
+}
+
+// Merge adds the obligations of a run over another build configuration that are not identical (rule, construct, verdict) to
+// one of this report's; their constructs are prefixed. Returns the number added.
+func (r *Report) Merge(o *Report, prefix string) int {
+	have := map[string]bool{}
+	for _, x := range r.Obls {
+		have[fmt.Sprintf("%s|%s|%v", x.Rule, x.Construct, x.OK)] = true
+	}
+	n := 0
+	for _, x := range o.Obls {
+		if have[fmt.Sprintf("%s|%s|%v", x.Rule, x.Construct, x.OK)] {
+			continue
+		}
+		x.Construct = prefix + x.Construct
+		r.Obls = append(r.Obls, x)
+		if ri := r.ruleIdx[x.Rule]; ri != nil && !x.OK {
+			ri.Failed++
+		}
+		n++
+	}
+	return n
+}
+
+func (r *Report) Finish(verifDir string, ctx *Ctx, only string) int {
+	r.vacuity()
 	known, err := loadKnown(filepath.Join(verifDir, "known_findings.json"))
 	if err != nil {
 		fmt.Printf("cannot read known_findings.json: %v\n", err)
